@@ -649,6 +649,8 @@ struct Outcome {
     nosettle: bool,
     statuses: Vec<u16>,
     head_lens: Vec<usize>,
+    /// some response head carried `connection: close`
+    close_seen: bool,
     parsed_all: bool,
     sh: Sh,
 }
@@ -810,7 +812,11 @@ fn drive(case: &Case) -> Option<Outcome> {
         (snaps, done, nosettle)
     });
     let (statuses, head_lens, parsed_all) = parse_out(&sh.borrow().out);
-    Some(Outcome { snaps, done, nosettle, statuses, head_lens, parsed_all, sh })
+    let close_seen = {
+        let s = sh.borrow();
+        s.out.windows(17).any(|w| w.eq_ignore_ascii_case(b"connection: close"))
+    };
+    Some(Outcome { snaps, done, nosettle, statuses, head_lens, close_seen, parsed_all, sh })
 }
 
 fn err_kind(e: &actix_http::error::DispatchError) -> &'static str {
@@ -888,7 +894,11 @@ fn oracle(case: &Case, o: &Outcome) -> Option<(String, String)> {
         let all_before_done = s.calls >= k && s.resps.len() >= k;
         let offered_enough = s.avail >= l.start + l.head.min(rmax + 1) && l.head >= MAX_BUFFER_SIZE;
         let is_junk_or_big = case.items.get(k).map(|i| !matches!(i, Item::Bad)).unwrap_or(false);
-        if is_junk_or_big && all_before_done && offered_enough && s.wbudget >= INF && o.parsed_all {
+        // the connection may legitimately end before the head is read: peer EOF in the script, or an
+        // earlier response that announced `connection: close` (unread request payload)
+        let has_eof = case.steps.iter().any(|st| matches!(st, Step::Eof));
+        let closed_by_response = o.close_seen && !o.statuses.contains(&431);
+        if is_junk_or_big && all_before_done && offered_enough && s.wbudget >= INF && o.parsed_all && !has_eof && !closed_by_response {
             let prev_closed = o.statuses.len() < k; // connection was closed before reaching it
             if !prev_closed {
                 if !o.statuses.contains(&431) {
@@ -1089,6 +1099,53 @@ fn gen(ctx: &Ctx) -> Vec<String> {
         let w1 = rng.range(1, 3000);
         cases.push(format!("wbs={} +g18 +g18 S r{}{}x{} p w{} w{} re W", wbs, kind, c, m, w1, rng.range(1, 100_000)));
     }
+    // --- boundaries: channel exactly at / around 32 768 on the feeding and on the consuming side
+    for _ in 0..ctx.budget(6) {
+        let d = rng.below(3); // -1, 0, +1
+        let a = rng.range(1, 5000);
+        let h = len_base(600_000) + rng.below(40);
+        cases.push(format!("+l{}:600000 s{} s{} p S p C re W", h, h, PAYLOAD_MAX + d - 1));
+        cases.push(format!("+l{}:600000 s{} s{} p s{} p c1 S p C re W", h, h, a, PAYLOAD_MAX + d - 1));
+        let c = *rng.pick(&[1usize, 2, 16, 4096]);
+        cases.push(format!("seg={} +k{}:{}x{} S c{} p c1 p C re W", rng.pick(&[1024usize, 1000]), CHUNKED_BASE, c, 400_000 / (c + 6), rng.range(1, 40)));
+    }
+    // --- boundaries: MAX_PIPELINED_MESSAGES - 1 / exactly / + 1 queued when the flood arrives
+    for _ in 0..ctx.budget(3) {
+        let h = rng.range(18, 30);
+        for q in [MAX_PIPELINED - 1, MAX_PIPELINED, MAX_PIPELINED + 1] {
+            cases.push(format!("+30000*g{} s{} p s{} p S p Re W", h, h, h * q));
+        }
+    }
+    // --- boundaries: write buffer exactly at h1_write_buffer_size after the head / after a chunk
+    for _ in 0..ctx.budget(6) {
+        let c = rng.range(1, 300);
+        let enc = enc_chunk(true, c);
+        let k = rng.range(0, 3);
+        let d = rng.below(3);
+        // stream head is 84 bytes; after k chunks the buffer holds 84 + k*enc
+        let wbs = (84 + k * enc + d).saturating_sub(1).max(1);
+        cases.push(format!("wbs={} +g18 +g18 S rs{}x{} p w1 p rz7x3 W", wbs, c, k + 3));
+    }
+    // --- unread payloads, EOF, half-close, garbage
+    for _ in 0..ctx.budget(10) {
+        let hc = rng.below(2);
+        let body = match rng.below(3) {
+            0 => format!("+l{}:{}", len_base(200_000) + rng.below(20), rng.range(1, 200_000)),
+            1 => format!("+k{}:{}x{}", CHUNKED_BASE + rng.below(20), rng.range(1, 3000), rng.range(1, 60)),
+            _ => format!("+K{}:{}x{}", CHUNKED_BASE + rng.below(20), rng.range(1, 3000), rng.range(1, 60)),
+        };
+        let tail = *rng.pick(&["", "+g18", "+b", "+j150000"]);
+        let keep = if rng.chance(1, 3) { "k" } else { "" };
+        let mid = *rng.pick(&["S", "s100 p S", "S e", "s5000 e"]);
+        let resp = *rng.pick(&["re", "rn", "rs50x3", "rz10x2"]);
+        cases.push(format!("hc={} {} {} {} c{} {}{} p C Re W", hc, body, tail, mid, rng.below(4), resp, keep));
+    }
+    // --- a transport that fills whatever it is offered (oracle only: capacity growth is not modelled)
+    for _ in 0..ctx.budget(4) {
+        cases.push(format!("seg=0 +{}*g{} S p re W Re", rng.range(15_000, 40_000), rng.range(18, 25)));
+        cases.push(format!("seg=0 +l{}:{} S p c1 C re W", len_base(900_000), rng.range(300_000, 900_000)));
+        cases.push(format!("seg=0 +j{} s{} p S W", rng.range(280_000, 600_000), rng.range(130_000, 131_072)));
+    }
     // --- random mixes
     for _ in 0..ctx.budget(120) {
         let mut toks: Vec<String> = Vec::new();
@@ -1096,6 +1153,9 @@ fn gen(ctx: &Ctx) -> Vec<String> {
         toks.push(format!("seg={}", rng.pick(&[1024usize, 1000, 100, 17])));
         if rng.chance(1, 3) {
             toks.push(format!("wseg={}", rng.pick(&[1usize, 10, 1000])));
+        }
+        if rng.chance(1, 4) {
+            toks.push("hc=0".into());
         }
         let nit = rng.range(1, 5);
         for _ in 0..nit {
@@ -1111,9 +1171,16 @@ fn gen(ctx: &Ctx) -> Vec<String> {
                 _ => toks.push(format!("+{}g{}", pre, rng.range(18, 60))),
             }
         }
+        if rng.chance(1, 6) {
+            toks.push(rng.pick(&["+b", "+j140000", "+j50"]).to_string());
+        }
+        // most scripts start by making input readable
+        if rng.chance(4, 5) {
+            toks.push(if rng.chance(1, 2) { "S".to_owned() } else { format!("s{}", rng.range(1, 200_000)) });
+        }
         let nst = rng.range(2, 14);
         for _ in 0..nst {
-            let t = match rng.below(10) {
+            let t = match rng.below(12) {
                 0 => format!("s{}", rng.range(1, 50_000)),
                 1 => "S".to_owned(),
                 2 => format!("c{}", rng.range(1, 5)),
@@ -1123,12 +1190,14 @@ fn gen(ctx: &Ctx) -> Vec<String> {
                 6 => format!("rz{}x{}", rng.range(1, 3000), rng.range(1, 8)),
                 7 => format!("w{}", rng.range(1, 5000)),
                 8 => "W".to_owned(),
+                9 => "e".to_owned(),
+                10 => rng.pick(&["rek", "rn", "rs9x2k"]).to_string(),
                 _ => "p".to_owned(),
             };
             toks.push(t);
         }
         if rng.chance(1, 2) {
-            toks.push("Re".into());
+            toks.push(rng.pick(&["Re", "Rs100x3", "Rn"]).to_string());
             toks.push("C".into());
             toks.push("W".into());
         }
